@@ -145,7 +145,7 @@ def _worker(task):
     set_active(E)
     st = {"unit": unit.name, "cidx": cidx, "paths": 0, "inconclusive": 0, "inconclusive_reasons": {}, "nontrivial": 0,
           "discharged": 0, "q_unknown": 0, "violations": [], "nonrepro": 0, "witness_ok": 0, "witness_bad": [],
-          "tags": {}, "samples": [], "distinct": set()}
+          "tags": {}, "samples": [], "distinct": set(), "nonrepro_clauses": {}}
     counter = [0]
 
     def _alarm(signum, frame):
@@ -196,6 +196,8 @@ def _worker(task):
                         res = ([f"replay crashed: {traceback.format_exc()[-300:]}"], None, set())
                     if res is None or not res[0]:
                         st["nonrepro"] += 1
+                        k = ("unreachable pre-state / input leaves the path: " if res is None else "clause holds concretely: ") + name
+                        st["nonrepro_clauses"][k] = st["nonrepro_clauses"].get(k, 0) + 1
                         continue
                     failures, cout, _ = res
                     try:    # the same input in native int/float arithmetic (recorded, not required)
@@ -350,6 +352,7 @@ def run_property(modname, prop, tier, seed, nproc=None, budget_s=None):
            "solver_s": 0.0, "unknowns": 0, "witness_ok": 0, "nonrepro": 0, "realisations": 0}
     per_unit = {}
     violations, witness_bad, samples, reasons, tags = [], [], [], {}, {}
+    nonrepro_clauses = {}
     distinct = set()
     exhausted = skipped[0] == 0
     nonlinear = False
@@ -383,13 +386,15 @@ def run_property(modname, prop, tier, seed, nproc=None, budget_s=None):
             reasons[r] = reasons.get(r, 0) + n
         for t, n in st["tags"].items():
             tags[t] = tags.get(t, 0) + n
+        for t, n in st.get("nonrepro_clauses", {}).items():
+            nonrepro_clauses[t] = nonrepro_clauses.get(t, 0) + n
         distinct.update((st["unit"], st["cidx"], d) for d in st["distinct"])
     for pu in per_unit.values():
         pu["configs"] = len(pu["configs"])
         pu["solver_s"] = round(pu["solver_s"], 2)
     return {"units": units, "tot": tot, "per_unit": per_unit, "violations": violations, "witness_bad": witness_bad,
             "samples": samples, "reasons": reasons, "tags": tags, "distinct": len(distinct), "exhausted": exhausted,
-            "crashes": crashes, "wall": time.time() - t0, "nonlinear": nonlinear, "ntasks": len(results), "xc": xc, "xc_dis": xc_dis}
+            "nonrepro_clauses": nonrepro_clauses, "crashes": crashes, "wall": time.time() - t0, "nonlinear": nonlinear, "ntasks": len(results), "xc": xc, "xc_dis": xc_dis}
 
 
 LEVELS = {"C09": "other", "C10": "other"}
@@ -481,7 +486,7 @@ def finish(prop, tier, seed, R, level_note=""):
             "arithmetic": "non-linear real/int" if R["nonlinear"] else "linear real/int (exact, not IEEE)",
             "inconclusive_paths": tot["inconclusive"], "inconclusive_reasons": R["reasons"],
             "solver_unknown_answers": tot["unknowns"], "realisation_forks": tot["realisations"],
-            "candidate_models_not_reproduced": tot["nonrepro"],
+            "candidate_models_not_reproduced": tot["nonrepro"], "candidate_models_not_reproduced_by_clause": R.get("nonrepro_clauses", {}),
             "cvc5_cross_check_of_sampled_queries": R.get("xc", {}),
             "witness_replays_agreeing": tot["witness_ok"], "witness_replays_disagreeing": len(R["witness_bad"]),
             "path_tags": R["tags"], "tasks": R["ntasks"],
